@@ -16,73 +16,79 @@ CRATES = ("tcp", "http", "tls")
 def run(tier, v):
     wd = vlib.workdir(PID)
     vlib.build_harness()
-    vec_path = os.path.join(wd, "vectors.ndjson")
-    exp = {}
-    stat = {}
-    with open(vec_path, "w") as f:
-        def sink(tag, obj):
-            if tag == "STAT":
-                stat.update(obj)
-                f.write(json.dumps({"addrs": obj["addrs"], "ports": obj["ports"]}) + "\n")
-            elif tag == "REPLAY":
-                exp[obj["id"]] = (obj["exp"], obj["alt"], obj["cfg"])
-                f.write(json.dumps({"id": obj["id"], "cfg": obj["cfg"]}) + "\n")
-        # STAT is printed while evaluating ASSUME, i.e. before any REPLAY line
-        r = vlib.tlc("MC_C14", pid=PID, workers=16 if tier == "thorough" else 8, tag_sink=sink,
-                     env={"VERIF_TIER": tier}, timeout=3000)
-    if r.inv_violated:
-        # the *definition* breaks one of its own laws: specification error, not a verdict on the code
-        raise vlib.ToolError("Filter.tla violates its laws: %s" % r.inv_violated)
-    if len(exp) != stat["ncfg"]:
-        raise vlib.ToolError("expected %d vectors, TLC printed %d" % (stat["ncfg"], len(exp)))
-    out_path = os.path.join(wd, "observed.ndjson")
-    vlib.run_hv("filter", vec_path, out_path)
     K = set(vlib.known_devs(PID))
-    nep = stat["nep"]
-    evaluations = 0
-    nontrivial = 0
-    seen = 0
+    tot = {"states": 0, "trans": 0, "vectors": 0, "evaluations": 0, "nontrivial": 0, "wall": 0.0}
     samples = []
-    for o in vlib.read_ndjson(out_path):
-        seen += 1
-        e, alt, cfg = exp[o["id"]]
-        es = "".join(str(b) for b in e)
-        if "0" in es and "1" in es:
-            nontrivial += 1
-        if "panic" in o:
-            v.violation({"cfg": cfg, "observed": "panic: " + o["panic"], "expected_bits": es})
-            continue
-        for c in CRATES:
-            got = o["res"][c]
-            evaluations += nep
-            if got == es:
+    universes = {}
+    for fam in ("base", "order"):
+        vec_path = os.path.join(wd, "vectors-%s.ndjson" % fam)
+        exp = {}
+        stat = {}
+        with open(vec_path, "w") as f:
+            def sink(tag, obj):
+                if tag == "STAT":
+                    stat.update(obj)
+                    f.write(json.dumps({"addrs": obj["addrs"], "ports": obj["ports"]}) + "\n")
+                elif tag == "REPLAY":
+                    exp[obj["id"]] = (obj["exp"], obj["alt"], obj["cfg"])
+                    f.write(json.dumps({"id": obj["id"], "cfg": obj["cfg"]}) + "\n")
+            # STAT is printed while evaluating ASSUME, i.e. before any REPLAY line
+            r = vlib.tlc("MC_C14", pid=PID, workers=16 if tier == "thorough" else 8, tag_sink=sink,
+                         env={"VERIF_TIER": tier, "VERIF_FAM": fam}, timeout=3000)
+        if r.inv_violated:
+            # the *definition* breaks one of its own laws: specification error, not a verdict on the code
+            raise vlib.ToolError("Filter.tla violates its laws: %s" % r.inv_violated)
+        if len(exp) != stat["ncfg"]:
+            raise vlib.ToolError("expected %d vectors, TLC printed %d" % (stat["ncfg"], len(exp)))
+        out_path = os.path.join(wd, "observed-%s.ndjson" % fam)
+        vlib.run_hv("filter", vec_path, out_path)
+        nep = stat["nep"]
+        universes[fam] = {"configurations": stat["ncfg"], "endpoints": nep}
+        tot["states"] += r.distinct
+        tot["trans"] += r.generated
+        tot["vectors"] += len(exp)
+        tot["wall"] += r.wall
+        seen = 0
+        for o in vlib.read_ndjson(out_path):
+            seen += 1
+            e, alt, cfg = exp[o["id"]]
+            es = "".join(str(b) for b in e)
+            if "0" in es and "1" in es:
+                tot["nontrivial"] += 1
+            if "panic" in o:
+                v.violation({"cfg": cfg, "observed": "panic: " + o["panic"], "expected_bits": es})
                 continue
-            hit = None
-            for a in alt:
-                if got == "".join(str(b) for b in a["exp"]):
-                    hit = a["d"]
-            if hit and hit in K:
-                v.known_hit(hit, "PortFilter::{source,destination}_range(0..0) stores (0,0) and admits port 0 (crate %s)" % c)
-                continue
-            idx = next(i for i in range(nep) if got[i] != es[i])
-            v.violation({"crate": c, "cfg": cfg, "universe": {"addrs": stat["addrs"], "ports": stat["ports"]},
-                         "first_differing_endpoint_index": idx, "expected": es[idx], "observed": got[idx],
-                         "expected_bits": es, "observed_bits": got,
-                         "matches_deviation": hit})
-        if len(samples) < 3 and "0" in es and "1" in es:
-            samples.append({"cfg": cfg, "admit_bits_prefix": es[:64]})
-    if seen != len(exp):
-        raise vlib.ToolError("harness answered %d of %d vectors" % (seen, len(exp)))
+            for c in CRATES:
+                got = o["res"][c]
+                tot["evaluations"] += nep
+                if got == es:
+                    continue
+                hit = None
+                for a in alt:
+                    if got == "".join(str(b) for b in a["exp"]):
+                        hit = a["d"]
+                if hit and hit in K:
+                    v.known_hit(hit, "PortFilter::{source,destination}_range(0..0) stores (0,0) and admits port 0 (crate %s)" % c)
+                    continue
+                idx = next(i for i in range(nep) if got[i] != es[i])
+                v.violation({"crate": c, "family": fam, "cfg": cfg, "universe": {"addrs": stat["addrs"], "ports": stat["ports"]},
+                             "first_differing_endpoint_index": idx, "expected": es[idx], "observed": got[idx],
+                             "expected_bits": es, "observed_bits": got,
+                             "matches_deviation": hit})
+            if len(samples) < 3 and "0" in es and "1" in es:
+                samples.append({"cfg": cfg, "admit_bits_prefix": es[:64]})
+        if seen != len(exp):
+            raise vlib.ToolError("harness answered %d of %d vectors" % (seen, len(exp)))
     return v.finish("model_checking", {
-        "states": r.distinct, "transitions": r.generated,
-        "traces_validated_against_impl": len(exp) * len(CRATES),
-        "evaluations": evaluations, "distinct_nontrivial": nontrivial,
-        "rule": "every configuration of MC_C14's vocabulary (%d port x %d address x %d subnet sub-filters incl. 'none', x allow/deny) "
-                "against every endpoint 4-tuple of the universe (%d); non-trivial = configurations that admit some endpoints and reject others"
-                % (21 + 1, 8 + 1, 15 + 1, nep),
+        "states": tot["states"], "transitions": tot["trans"],
+        "traces_validated_against_impl": tot["vectors"] * len(CRATES),
+        "evaluations": tot["evaluations"], "distinct_nontrivial": tot["nontrivial"],
+        "rule": "every configuration of MC_C14's vocabularies (base: port x address x subnet sub-filters incl. 'none', x allow/deny; order: lists with nested, overlapping "
+                "and repeated elements in both orders) against every endpoint 4-tuple of the family's universe %s; non-trivial = configurations that admit some endpoints and reject others"
+                % universes,
         "samples": samples, "exhaustive": True,
         "laws_checked_by_tlc": ["LawNoFilter", "LawDenyIsNegation", "LawAllowConjunction", "LawCidrExtremes"],
-        "tlc_wall_s": round(r.wall, 1),
+        "tlc_wall_s": round(tot["wall"], 1),
     }, ["TLC's evaluation of Filter.tla is the oracle", "endpoint universe and filter vocabulary are bounded (see MC_C14.tla)",
         "the unified crate re-exports huginn_net_tcp::FilterConfig (same type)"])
 
